@@ -137,7 +137,8 @@ Proof.
   split; [exact (quadratic_degenerate c n ys) | exact (correlation_degenerate c n ys)].
 Qed.
 
-(* correlation coefficient: the textbook formula, |r| <= 1, and r changes sign when y is negated *)
+(* correlation coefficient of a data set: the returned value is the textbook quotient itself (the
+   final limitation to [-1, 1] never acts: |r| <= 1 by Cauchy-Schwarz), and r changes sign when y is negated *)
 Theorem C17_correlation : forall xs ys, length xs = length ys -> 0 < var_x xs -> 0 < var_y xs ys ->
   exists r,
     CurveFitting_correlation_coeff Rops (cf_of xs ys) = VFloat r
@@ -264,7 +265,22 @@ Theorem C17_r_one_iff_collinear : forall xs ys, length xs = length ys -> 0 < var
   /\ (Rabs (r_of xs ys) = 1 <-> exists al be, al <> 0 /\ ys = map (aff al be) xs).
 Proof.
   intros xs ys Hl Hx Hy.
-  exact (conj (correlation_value xs ys Hx Hy) (r_one_iff_collinear xs ys Hl Hx Hy)).
+  exact (conj (correlation_value xs ys Hl Hx Hy) (r_one_iff_collinear xs ys Hl Hx Hy)).
+Qed.
+
+(* the returned value lies in [-1, 1] OUTRIGHT: the code returns max(-1.0, min(1.0, quotient)),
+   i.e. clampR of the quotient, for any stored sums with positive variances (a value is returned
+   only then; otherwise ValueError / ZeroDivisionError, C17_degenerate_refused).  For the sums of
+   a data set the limitation is the identity (Cauchy-Schwarz, C17_correlation: the returned r IS
+   the unclamped quotient). *)
+Theorem C17_correlation_range : forall xl yl P Q Rr S T U V W N,
+  0 < IZR N * Q - P * P -> 0 < IZR N * W - T * T ->
+  CurveFitting_correlation_coeff Rops (cfobj xl yl P Q Rr S T U V W N)
+    = VFloat (clampR (corr_r (IZR N) P Q T U W))
+  /\ -1 <= clampR (corr_r (IZR N) P Q T U W) <= 1.
+Proof.
+  intros xl yl P Q Rr S T U V W N Hx Hy.
+  exact (conj (correlation_clamped xl yl P Q Rr S T U V W N Hx Hy) (clampR_range _)).
 Qed.
 
 Redirect "C17_sums.assumptions" Print Assumptions C17_sums.
@@ -285,3 +301,4 @@ Redirect "C17_menu_instances.assumptions" Print Assumptions C17_menu_instances.
 Redirect "C17_input_forms_any_length.assumptions" Print Assumptions C17_input_forms_any_length.
 Redirect "C17_linear_minimises.assumptions" Print Assumptions C17_linear_minimises.
 Redirect "C17_r_one_iff_collinear.assumptions" Print Assumptions C17_r_one_iff_collinear.
+Redirect "C17_correlation_range.assumptions" Print Assumptions C17_correlation_range.
